@@ -68,12 +68,27 @@ func checkC12(c *Case, s *Stats) error {
 		var e error
 		si, e = index.NewSlimIndex(items, rd)
 		if e != nil {
+			longest := 0
+			for _, k := range keys {
+				if len(k) > longest {
+					longest = len(k)
+				}
+			}
+			if longest > maxKeyLen {
+				si = nil // refusing keys beyond the documented length is fine; mis-indexing them is not
+				return nil
+			}
 			return viol("build", "NewSlimIndex rejected sorted records: %v", e)
 		}
 		return nil
 	})
 	if err != nil {
 		return err
+	}
+	if si == nil {
+		s.class("refused_beyond_documented_key_length")
+		s.done(c, false, "refused")
+		return nil
 	}
 	get := si.Get
 	api := "Get"
@@ -260,6 +275,23 @@ func checkC17(c *Case, s *Stats) error {
 			return viol("size-bound", "a %d-key filter-mode index loaded into an instance that held a larger index serialises to %d bytes; the same index serialises to %d bytes from a fresh object", n, hsize, size)
 		}
 		s.class("reload_into_used_instance_history")
+	}
+	if c.Scrib == 3 {
+		// an earlier build by the same program was REJECTED late: the next build must not notice
+		rejected, err := lateRejectedBuild()
+		if err != nil {
+			return err
+		}
+		hsize, _, err := filterSize(keys)
+		if err != nil {
+			return err
+		}
+		if hsize != size {
+			return viol("size-bound", "a %d-key filter-mode index serialises to %d bytes when built right after a rejected build, and to %d bytes otherwise", n, hsize, size)
+		}
+		if rejected {
+			s.class("build_after_late_rejected_build_history")
+		}
 	}
 	maxP := 0
 	if len(c.Prefix) >= 2 && n > 0 {
